@@ -176,3 +176,57 @@ def check_C14(run, replay):
         cases, rows = enumerate_pipeline(run, "MC_Import", "import", env=env, timeout=3000)
         run.exhaustive = True
     absorb(run, rows, cases, mismatch_sig("import"))
+
+
+def validate_trace(run, module, trace_path, sig, context, timeout=1800, env=None):
+    """impl -> spec: the recorded trace must be a behaviour of spec/<module>"""
+    from vlib import tlc_trace
+    ok, line, rec, res = tlc_trace(module, trace_path, timeout=timeout, env=env)
+    run.add_tlc(res)
+    if not ok:
+        lines = open(trace_path).read().splitlines()
+        ctx = lines[max(0, (line or 1) - 6):(line or 1)] if line and line > 0 else []
+        run.violation(sig(rec) if callable(sig) else sig,
+                      {"trace_spec": module, "first_unexplained_line": line, "record": rec,
+                       "preceding_lines": ctx, "context": context})
+    return ok
+
+
+# ------------------------------------------------------------------------------------------ C13
+LEVELS["C13"] = "model_checking"
+
+
+def check_C13(run, replay):
+    run.rule = ("model: NamedView.tla checked by TLC for every zero pattern on <=2 multi-action infosets (2 or 3 actions) and "
+                "<=2 single-action infosets (len drops by one per item, is zero iff exhausted, each infoset once); traces: "
+                "`harness record named` walks as_named() of imported (pure / sparse / full), truncated and solved (Full / "
+                "Sampled / External, T in {0,1,5,50}) profiles on seeded games with single-action infosets, len() before "
+                "every next() and after exhaustion, plus the from_named(as_named()) round trip; TLC validates every event "
+                "against Trace_NamedView.tla; one 'evaluation' = one walked profile; distinct = distinct (game, label) runs")
+    run.assumptions = ["round trip judged at 1e-13 relative per entry", "order of single-action infosets is left open by the spec"]
+    res = tlc("MC_NamedView", timeout=600)
+    run.add_tlc(res)
+    if replay:
+        d = replay_case(replay)
+        seed, n = d["context"]["seed"], d["context"]["n"]
+    else:
+        seed, n = run.seed, (40 if run.tier == "quick" else 600)
+    trace = run.path("trace.ndjson")
+    out = harness(["record", "named", "--seed", seed, "--n", n, "--out", trace])
+    info = json.loads(out.strip().splitlines()[-1])
+    ok = validate_trace(run, "Trace_NamedView", trace,
+                        lambda rec: "named:%s" % (rec or {}).get("e", "?"), {"seed": seed, "n": n})
+    run.traces += info["runs"]
+    run.evaluations += info["runs"]
+    # distinct runs: count distinct reset lines
+    seen = set()
+    with open(trace) as f:
+        for line in f:
+            if line.startswith('{"e":"reset"') and '"player":1' in line:
+                seen.add(line)
+    run.distinct |= seen
+    run.notes["trace_events"] = info["events"]
+    for s in info["samples"]:
+        run.sample(s)
+    with open(trace) as f:
+        run.sample({"trace_head": [json.loads(next(f)) for _ in range(6)]}, limit=4)
